@@ -8,7 +8,10 @@
 (*                        or a single not-found                            *)
 (*   hash request      -> that header, or a single not-found               *)
 (*   invalid request   -> a single invalid response                         *)
-(* and never a crash.                                                      *)
+(* and never a crash.  The server may be asked many times while the store  *)
+(* changes (new head, batches filling gaps below the head, removals): the  *)
+(* answer is always the one for the store as it is at that moment          *)
+(* (HistMode: request / mutation / request on one long-lived handler).     *)
 (*                                                                         *)
 (* A store is a set of runs <<lo, hi>> (sorted, disjoint, non-adjacent),   *)
 (* so that stores longer than Cap = 512 are cheap.  Numbers live in 0..M;  *)
@@ -27,8 +30,12 @@ CONSTANTS M,         \* stands for u64::MAX
           HashLens,  \* lengths of the hash field (32 is the valid one)
           SmallAmounts  \* amounts used with hash / no-data requests
 
-VARIABLES store, req, ans
-vars == <<store, req, ans>>
+CONSTANTS HistMode,   \* TRUE: histories request / store mutation / request on ONE handler
+          MutMax      \* heights that store mutations may touch: 1..MutMax
+
+VARIABLES store, req, ans,
+          ph          \* phase of the behaviour: 0 first request, 1 mutation, 2 second request, 3 over
+vars == <<store, req, ans, ph>>
 
 MinOf2(a, b) == IF a <= b THEN a ELSE b
 
@@ -81,10 +88,36 @@ Answer(S, r) ==
     ELSE \* hash
          IF InS(S, r.target) THEN Headers(r.target, 1) ELSE NotFound
 
-Init == store \in Stores /\ req = NoReq /\ ans = Invalid
-\* one request per behaviour: the server keeps no state between requests
-Serve(r) == req = NoReq /\ req' = r /\ ans' = Answer(store, r) /\ UNCHANGED store
-Next == \E r \in Requests : Serve(r)
+(* ---- store mutations between two requests (the handler lives on) ---- *)
+Heights(S) == UNION {r[1]..r[2] : r \in S}
+IsLo(H, h) == h \in H /\ (h - 1) \notin H
+HiOf(H, l) == CHOOSE h \in H : h >= l /\ (\A x \in l..h : x \in H) /\ (h + 1) \notin H
+RunsOfSet(H) == {<<l, HiOf(H, l)>> : l \in {h \in H : IsLo(H, h)}}
+\* Store::insert admits a batch of consecutive new heights above the head, or adjacent to a stored run
+InsOk(S, lo, hi) ==
+    LET H == Heights(S) IN
+    /\ 1 <= lo /\ lo <= hi /\ (lo..hi) \cap H = {}
+    /\ (IF S = {} THEN TRUE ELSE (lo > HeadH(S) \/ (lo - 1) \in H \/ (hi + 1) \in H))
+Mutations(S) == {[op |-> "none", lo |-> 0, hi |-> 0]}
+                \cup {[op |-> "ins", lo |-> lo, hi |-> hi] : lo \in 1..MutMax, hi \in 1..MutMax}
+                \cup {[op |-> "rem", lo |-> h, hi |-> h] : h \in 1..MutMax}
+MutOk(S, m) == CASE m.op = "none" -> TRUE
+                 [] m.op = "ins"  -> InsOk(S, m.lo, m.hi)
+                 [] m.op = "rem"  -> m.lo \in Heights(S)
+Apply(S, m) == CASE m.op = "none" -> S
+                 [] m.op = "ins"  -> RunsOfSet(Heights(S) \cup (m.lo..m.hi))
+                 [] m.op = "rem"  -> RunsOfSet(Heights(S) \ {m.lo})
+
+Init == store \in Stores /\ req = NoReq /\ ans = Invalid /\ ph = 0
+\* The answer is the one for the store AS IT IS when the request is served - whatever was asked or
+\* answered before on the same handler.  Without HistMode: one request per behaviour.
+Serve(r) == /\ ph \in {0, 2}
+            /\ req' = r /\ ans' = Answer(store, r) /\ UNCHANGED store
+            /\ ph' = IF HistMode THEN ph + 1 ELSE 3
+Mutate(m) == /\ HistMode /\ ph = 1 /\ MutOk(store, m)
+             /\ store' = Apply(store, m) /\ req' = NoReq /\ ans' = Invalid /\ ph' = 2
+Next == \/ \E r \in Requests : Serve(r)
+        \/ \E m \in Mutations(store) : Mutate(m)
 Spec == Init /\ [][Next]_vars
 
 (* ---- the property, clause by clause, on the model ---- *)
